@@ -257,10 +257,13 @@ def exec_array(case):
     if vdw:
         Vb = [_call('get_V', lambda i=i: obj.get_V(T=float(T[i]), P=float(Pb[i]), n=float(n[i]), gas_phase=True))
               for i in range(k)]
-        Vn = arr_call('get_V', lambda n: obj.get_V(T=T0[0], P=P0[0], n=n, gas_phase=True), {'n': n})
-        compare(Vn, 'get_V', lambda i: obj.get_V(T=T0[0], P=P0[0], n=n0[i], gas_phase=True))
-        nV = arr_call('get_n', lambda V: obj.get_n(V=V, P=P0[0], T=T0[0], gas_phase=True), {'V': V})
-        compare(nV, 'get_n', lambda i: obj.get_n(V=V0[i], P=P0[0], T=T0[0], gas_phase=True))
+        # get_V(n=array) and get_n(V=array) at a (where possible sub-critical, three-root) state, either phase
+        Ts, Ps = case.get('sub', [T0[0], P0[0]])
+        g = bool(case.get('gas', True))
+        Vn = arr_call('get_V', lambda n: obj.get_V(T=Ts, P=Ps, n=n, gas_phase=g), {'n': n})
+        compare(Vn, 'get_V', lambda i: obj.get_V(T=Ts, P=Ps, n=n0[i], gas_phase=g))
+        nV = arr_call('get_n', lambda V: obj.get_n(V=V, P=Ps, T=Ts, gas_phase=g), {'V': V})
+        compare(nV, 'get_n', lambda i: obj.get_n(V=V0[i], P=Ps, T=Ts, gas_phase=g))
         Vc = arr_call('get_Vc', obj.get_Vc, {'n': n})
         compare(Vc, 'get_Vc', lambda i: obj.get_Vc(n=n0[i]))
     else:
@@ -279,6 +282,133 @@ def exec_array(case):
     return [ev], {'touched': touched, 'V0': V0, 'V_held': [float(x) for x in V], 'T_back': [float(x) for x in Tb]}
 
 
+def exec_forms(case):
+    """Argument forms (int / numpy scalars, positional, omitted defaults), constructor forms
+    (from_dict(to_dict()), JSON encoder, positional) and repeated use of one object."""
+    import json
+    import numpy as np
+    from pmutt import constants as c
+    from pmutt.eos import IdealGasEOS, vanDerWaalsEOS
+    from pmutt.io.json import pmuttEncoder, json_to_pmutt
+    vdw = case['eos'] == 'vdw'
+    A, B = case['A'], case['B']
+    T0, P0, V0 = c.T0('K'), c.P0('bar'), c.V0('m3')
+
+    def build():
+        return _vdw_object(case)[0] if vdw else IdealGasEOS()
+
+    def calls(o, T, P, n, V=None, order=(True, False)):
+        """every getter at one state, phases called in `order`, results always listed gas first;
+        V (for get_P/get_T/get_n) is the gas-root volume unless given"""
+        out = []
+        if vdw:
+            per = {}
+            for g in order:
+                vm = _call('get_Vm', lambda: o.get_Vm(T=T, P=P, gas_phase=g))
+                Vg = _call('get_V', lambda: o.get_V(T=T, P=P, n=n, gas_phase=g))
+                per[g] = [vm, Vg, _call('get_n', lambda: o.get_n(V=Vg if V is None else V, P=P, T=T, gas_phase=g))]
+            out = per[True] + per[False]
+            Vu = out[1] if V is None else V
+            out.append(_call('get_Vc', lambda: o.get_Vc(n=n)))
+        else:
+            Vu = _call('get_V', lambda: o.get_V(T=T, P=P, n=n)) if V is None else V
+            out.append(_call('get_V', lambda: o.get_V(T=T, P=P, n=n)))
+            out.append(_call('get_n', lambda: o.get_n(V=Vu, P=P, T=T)))
+        out.append(_call('get_P', lambda: o.get_P(T=T, V=Vu, n=n)))
+        out.append(_call('get_T', lambda: o.get_T(V=Vu, P=P, n=n)))
+        return out
+
+    def pairs(xs, ys):
+        return [[to_dec2(x), to_dec2(y)] for x, y in zip(xs, ys)]
+
+    obj = build()
+    a0, b0 = (float(obj.a), float(obj.b)) if vdw else (0.0, 0.0)
+    TA, PA, nA = float(A['T']), float(A['P']), float(A['n'])
+    refA = calls(obj, TA, PA, nA)
+    VA = refA[1] if vdw else refA[0]
+    # ---- argument types (A is integral-valued, so int(x) is the same number)
+    types = []
+    for conv in (int, np.float64, np.int64):
+        types += pairs(calls(obj, conv(TA), conv(PA), conv(nA), V=(np.float64(VA) if conv is np.float64 else VA)),
+                       calls(obj, TA, PA, nA, V=VA))
+    if vdw and case.get('from_critical'):
+        Tc, Pc = case['from_critical']
+        if float(Tc).is_integer() and float(Pc).is_integer():
+            for conv in (int, np.int64, np.float64):
+                o2 = vanDerWaalsEOS.from_critical(Tc=conv(Tc), Pc=conv(Pc))
+                types += pairs([float(o2.a), float(o2.b)], [a0, b0])
+    elif vdw and float(case['a']).is_integer():
+        o2 = vanDerWaalsEOS(a=int(case['a']), b=case['b'])
+        types += pairs(calls(o2, TA, PA, nA), refA)
+    # ---- positional calls
+    if vdw:
+        pos = []
+        for g in (True, False):
+            pos += [_call('get_Vm', lambda: obj.get_Vm(TA, PA, g)), _call('get_V', lambda: obj.get_V(TA, PA, nA, g)),
+                    _call('get_n', lambda: obj.get_n(refA[1 if g else 4], PA, TA, g))]
+        pos += [_call('get_Vc', lambda: obj.get_Vc(nA)), _call('get_P', lambda: obj.get_P(TA, VA, nA)),
+                _call('get_T', lambda: obj.get_T(VA, PA, nA))]
+    else:
+        pos = [_call('get_V', lambda: obj.get_V(TA, PA, nA)), _call('get_n', lambda: obj.get_n(VA, PA, TA)),
+               _call('get_P', lambda: obj.get_P(TA, VA, nA)), _call('get_T', lambda: obj.get_T(VA, PA, nA))]
+    posn = pairs(pos, refA)
+    # ---- omitted arguments = documented defaults
+    d = []
+
+    def dflt(name, omitted, explicit):
+        d.append([to_dec2(_call(name, omitted)), to_dec2(_call(name, explicit))])
+    if vdw:
+        dflt('get_Vm', lambda: obj.get_Vm(P=PA), lambda: obj.get_Vm(T=T0, P=PA, gas_phase=True))
+        dflt('get_Vm', lambda: obj.get_Vm(T=TA), lambda: obj.get_Vm(T=TA, P=P0, gas_phase=True))
+        dflt('get_Vm', lambda: obj.get_Vm(T=TA, P=PA), lambda: obj.get_Vm(T=TA, P=PA, gas_phase=True))
+        dflt('get_V', lambda: obj.get_V(T=TA, P=PA, n=nA), lambda: obj.get_V(T=TA, P=PA, n=nA, gas_phase=True))
+        dflt('get_n', lambda: obj.get_n(V=VA, P=PA, T=TA), lambda: obj.get_n(V=VA, P=PA, T=TA, gas_phase=True))
+        dflt('get_Vc', lambda: obj.get_Vc(), lambda: obj.get_Vc(n=1.0))
+        kw = {'gas_phase': False}
+    else:
+        kw = {}
+    dflt('get_V', lambda: obj.get_V(T=TA, P=PA, **kw), lambda: obj.get_V(T=TA, P=PA, n=1.0, **kw))
+    dflt('get_V', lambda: obj.get_V(P=PA, n=nA, **kw), lambda: obj.get_V(T=T0, P=PA, n=nA, **kw))
+    dflt('get_V', lambda: obj.get_V(T=TA, n=nA, **kw), lambda: obj.get_V(T=TA, P=P0, n=nA, **kw))
+    dflt('get_P', lambda: obj.get_P(T=TA, n=nA * 1e-3), lambda: obj.get_P(T=TA, V=V0, n=nA * 1e-3))
+    dflt('get_P', lambda: obj.get_P(V=VA, n=nA), lambda: obj.get_P(T=T0, V=VA, n=nA))
+    dflt('get_P', lambda: obj.get_P(T=TA, V=VA), lambda: obj.get_P(T=TA, V=VA, n=1.0))
+    dflt('get_T', lambda: obj.get_T(P=PA, n=nA * 1e-3), lambda: obj.get_T(V=V0, P=PA, n=nA * 1e-3))
+    dflt('get_T', lambda: obj.get_T(V=VA, n=nA), lambda: obj.get_T(V=VA, P=P0, n=nA))
+    dflt('get_T', lambda: obj.get_T(V=VA, P=PA), lambda: obj.get_T(V=VA, P=PA, n=1.0))
+    dflt('get_n', lambda: obj.get_n(P=PA, T=TA, **kw), lambda: obj.get_n(V=V0, P=PA, T=TA, **kw))
+    dflt('get_n', lambda: obj.get_n(V=VA, T=TA, **kw), lambda: obj.get_n(V=VA, P=P0, T=TA, **kw))
+    dflt('get_n', lambda: obj.get_n(V=VA, P=PA, **kw), lambda: obj.get_n(V=VA, P=PA, T=T0, **kw))
+    std = []
+    if not vdw:
+        std = [to_dec(_call('get_V', obj.get_V)), to_dec(_call('get_P', obj.get_P)),
+               to_dec(_call('get_T', obj.get_T)), to_dec(_call('get_n', obj.get_n))]
+    # ---- rebuilt objects
+    ctor = []
+    cls = vanDerWaalsEOS if vdw else IdealGasEOS
+    try:
+        rebuilt = [cls.from_dict(obj.to_dict()),
+                   json.loads(json.dumps(obj, cls=pmuttEncoder), object_hook=json_to_pmutt)]
+        if vdw:
+            rebuilt.append(vanDerWaalsEOS(a0, b0))
+    except Exception as ex:                      # noqa
+        raise _Raised('rebuild: %s: %s' % (type(ex).__name__, ex))
+    for o2 in rebuilt:
+        if not isinstance(o2, cls):
+            raise _Raised('rebuild: %s is not a %s' % (type(o2).__name__, cls.__name__))
+        ctor += pairs(calls(o2, TA, PA, nA), refA)
+    # ---- repeated use: B on the used object vs on a fresh one, then A again
+    TB, PB, nB = B['T'], B['P'], B['n']
+    # (fresh objects are called liquid first, so an answer cannot depend on what was asked before)
+    again = pairs(calls(obj, TB, PB, nB), calls(build(), TB, PB, nB, order=(False, True))) \
+        + pairs(calls(obj, TA, PA, nA), refA) + pairs(calls(build(), TA, PA, nA, order=(False, True)), refA)
+    untouched = (not vdw) or (float(obj.a) == a0 and float(obj.b) == b0)
+    ev = {'ev': 'forms', 'eos': case['eos'], 'types': types, 'posn': posn, 'dflt': d, 'ctor': ctor,
+          'again': again, 'untouched': bool(untouched), 'std': std}
+    nroots = len(bracket_roots(a0, b0, TA, PA)) if vdw else 0
+    return [ev], {'nroots': nroots, 'pairs': len(types) + len(posn) + len(d) + len(ctor) + len(again)}
+
+
 def execute(case):
     try:
         if case['kind'] == 'ideal':
@@ -287,6 +417,8 @@ def execute(case):
             return exec_vdw(case)
         if case['kind'] == 'array':
             return exec_array(case)
+        if case['kind'] == 'forms':
+            return exec_forms(case)
         return exec_crit(case)
     except _Raised as ex:
         msg = str(ex)
@@ -323,7 +455,8 @@ def gen_threeroot(rnd, count):
         tries += 1
         a, b = logu(rnd, *A_RANGE), logu(rnd, *B_RANGE)
         Tc = 8.0 * a / (27.0 * b * R_SI)
-        T = Tc * rnd.choice([rnd.uniform(0.35, 0.95), rnd.uniform(0.95, 0.999), rnd.uniform(0.3, 0.6)])
+        T = Tc * rnd.choice([rnd.uniform(0.35, 0.95), rnd.uniform(0.95, 0.999), rnd.uniform(0.3, 0.6), 0.99,
+                              logu(rnd, 0.01, 0.3)])
         if not inside(T, T_RANGE):
             continue
         plo, phi = spinodal_pressures(a, b, T)
@@ -363,10 +496,18 @@ def gen_nearcrit(rnd, count):
 
 
 def gen_fromcrit_states(rnd, count):
-    """states of objects built by from_critical, at reduced conditions around the critical point"""
+    """states of objects built by from_critical, at reduced conditions around the critical point;
+    first the 16 objects at the ends (and adjacent doubles) of the (Tc, Pc) ranges"""
     out = []
+    for Tc in _edge_values(TC_RANGE):
+        for Pc in _edge_values(PC_RANGE):
+            T = min(max(Tc * rnd.choice([0.8, 1.3]), T_RANGE[0]), T_RANGE[1])
+            P = min(max(Pc * rnd.choice([0.3, 2.0]), P_RANGE[0]), P_RANGE[1])
+            for gas in (True, False):
+                out.append({'kind': 'vdw', 'src': 'fromcrit', 'from_critical': [Tc, Pc], 'T': T, 'P': P,
+                            'n': logu(rnd, *N_RANGE), 'gas': gas})
     tries = 0
-    while len(out) < 2 * count and tries < 200 * count:
+    while len(out) < 2 * count + 32 and tries < 200 * count:
         tries += 1
         Tc, Pc = logu(rnd, *TC_RANGE), logu(rnd, *PC_RANGE)
         T, P = Tc * logu(rnd, 0.4, 4.0), Pc * logu(rnd, 0.02, 5.0)
@@ -397,7 +538,7 @@ def gen_tlc(rnd, tlc_cases, per_case):
             if not (inside(P_si / BAR, P_RANGE) and inside(a, A_RANGE)):
                 continue
             made += 1
-            n = rnd.choice([1.0, logu(rnd, *N_RANGE)])
+            n = logu(rnd, *N_RANGE)
             for gas in (True, False):
                 out.append({'kind': 'vdw', 'src': 'tlc', 'a': a, 'b': b, 'T': T, 'P': P_si / BAR, 'n': n,
                             'gas': gas, 'lam': lam, 'expect': c['gas'] if gas else c['liquid'],
@@ -412,10 +553,10 @@ def gen_ideal(rnd, count):
     for _ in range(count):
         T, P, n = _state(rnd)
         out.append({'kind': 'ideal', 'T': T, 'P': P, 'n': n})
-    for T in T_RANGE:
-        for P in P_RANGE:
-            for n in N_RANGE:
-                out.append({'kind': 'ideal', 'T': T, 'P': P, 'n': n})
+    for T in _edge_values(T_RANGE):
+        for P in _edge_values(P_RANGE):
+            for n in _edge_values(N_RANGE):
+                out.append({'kind': 'ideal', 'src': 'ideal_corner', 'T': T, 'P': P, 'n': n})
     return out
 
 
@@ -425,9 +566,16 @@ def gen_crit(rnd, count):
         out.append({'kind': 'crit', 'a': logu(rnd, *A_RANGE), 'b': logu(rnd, *B_RANGE), 'n': logu(rnd, *N_RANGE)})
         out.append({'kind': 'crit', 'from_critical': [logu(rnd, *TC_RANGE), logu(rnd, *PC_RANGE)],
                     'n': logu(rnd, *N_RANGE)})
-    for Tc in TC_RANGE:
-        for Pc in PC_RANGE:
-            out.append({'kind': 'crit', 'from_critical': [Tc, Pc], 'n': 1.0})
+    amounts = [1.0e-3, 1.0e3, 1.0, 2.5]
+    i = 0
+    for Tc in _edge_values(TC_RANGE):
+        for Pc in _edge_values(PC_RANGE):
+            out.append({'kind': 'crit', 'src': 'crit_corner', 'from_critical': [Tc, Pc], 'n': amounts[i % 4]})
+            i += 1
+    for a in _edge_values(A_RANGE):
+        for b in _edge_values(B_RANGE):
+            out.append({'kind': 'crit', 'src': 'crit_corner', 'a': a, 'b': b, 'n': amounts[i % 4]})
+            i += 1
     return out
 
 
@@ -449,8 +597,121 @@ def gen_array(rnd, count):
             Ts.append(T), Ps.append(P), ns.append(n)
         if len(Ts) < k:
             continue
-        out.append({'kind': 'array', 'eos': 'vdw', 'src': 'array', 'a': a, 'b': b, 'T': Ts, 'P': Ps, 'n': ns})
+        case = {'kind': 'array', 'eos': 'vdw', 'src': 'array', 'a': a, 'b': b, 'T': Ts, 'P': Ps, 'n': ns,
+                'gas': len(out) % 4 == 0}
+        Tsub = 0.7 * Tc
+        if inside(Tsub, T_RANGE):
+            plo, phi = spinodal_pressures(a, b, Tsub)
+            plo, phi = max(plo, P_RANGE[0] * BAR), min(phi, P_RANGE[1] * BAR)
+            if plo < phi:
+                case['sub'] = [Tsub, 0.5 * (plo + phi) / BAR]
+        out.append(case)
         out.append({'kind': 'array', 'eos': 'ideal', 'src': 'array', 'T': Ts, 'P': Ps, 'n': ns})
+    return out
+
+
+def _edge_values(rng):
+    """both ends of a range and the doubles adjacent to them (inside the range)"""
+    lo, hi = rng
+    return [lo, math.nextafter(lo, math.inf), math.nextafter(hi, -math.inf), hi]
+
+
+def gen_corners(rnd, sample):
+    """every combination of range ends for (T, P, n, a, b) in every run; combinations that
+    involve the adjacent doubles: `sample` of the 4^5 by seed (all of them when sample is None)"""
+    import itertools
+    out = []
+    ends = list(itertools.product(T_RANGE, P_RANGE, N_RANGE, A_RANGE, B_RANGE))
+    allc = [c for c in itertools.product(*[_edge_values(r) for r in (T_RANGE, P_RANGE, N_RANGE, A_RANGE, B_RANGE)])
+            if c not in set(ends)]
+    if sample is not None:
+        allc = rnd.sample(allc, sample)
+    for src, combos in (('corner', ends), ('adjacent', allc)):
+        for T, P, n, a, b in combos:
+            for gas in (True, False):
+                out.append({'kind': 'vdw', 'src': src, 'a': a, 'b': b, 'T': T, 'P': P, 'n': n, 'gas': gas})
+    return out
+
+
+def gen_spinodal(rnd, count):
+    """states on (and within 1e-12 .. 1e-6 of) the spinodal pressures, where two roots merge"""
+    offs = [0.0, 1e-12, -1e-12, 1e-9, -1e-9, 1e-6, -1e-6]
+    out = []
+    tries = 0
+    while len(out) < 2 * count and tries < 200 * count:
+        tries += 1
+        a, b = logu(rnd, *A_RANGE), logu(rnd, *B_RANGE)
+        Tc = 8.0 * a / (27.0 * b * R_SI)
+        T = Tc * rnd.choice([0.99, 0.9, rnd.uniform(0.3, 0.99), rnd.uniform(0.85, 0.999)])
+        if not inside(T, T_RANGE):
+            continue
+        P = rnd.choice(spinodal_pressures(a, b, T)) * (1.0 + rnd.choice(offs)) / BAR
+        if not inside(P, P_RANGE):
+            continue
+        n = logu(rnd, *N_RANGE)
+        for gas in (True, False):
+            out.append({'kind': 'vdw', 'src': 'spinodal', 'a': a, 'b': b, 'T': T, 'P': P, 'n': n, 'gas': gas})
+    return out
+
+
+def gen_dilute_subcritical(rnd, count):
+    """dilute (a P/(RT)^2 < 1e-3, b P/(RT) < 1e-3) states below Tc: three roots, the liquid one far away"""
+    out = []
+    tries = 0
+    while len(out) < 2 * count and tries < 400 * count:
+        tries += 1
+        a, b = logu(rnd, *A_RANGE), logu(rnd, *B_RANGE)
+        Tc = 8.0 * a / (27.0 * b * R_SI)
+        T = Tc * rnd.uniform(0.3, 0.84)
+        P = logu(rnd, P_RANGE[0], 0.3)
+        RT = R_SI * T
+        if not inside(T, T_RANGE) or a * P * BAR / RT ** 2 >= 1e-3 or b * P * BAR / RT >= 1e-3:
+            continue
+        n = logu(rnd, *N_RANGE)
+        for gas in (True, False):
+            out.append({'kind': 'vdw', 'src': 'dilute', 'a': a, 'b': b, 'T': T, 'P': P, 'n': n, 'gas': gas})
+    return out
+
+
+def gen_dense_supercritical(rnd, count):
+    """dense fluid just above Tc (T/Tc 1-1.25, P/Pc 1.05-10): the real root is not the one of largest modulus"""
+    out = []
+    tries = 0
+    while len(out) < 2 * count and tries < 400 * count:
+        tries += 1
+        a, b = logu(rnd, *A_RANGE), logu(rnd, *B_RANGE)
+        T = 8.0 * a / (27.0 * b * R_SI) * rnd.choice([1.0, 1.0 + 1e-9, rnd.uniform(1.0, 1.25)])
+        P = a / (27.0 * b * b) / BAR * logu(rnd, 1.05, 10.0)
+        if not (inside(T, T_RANGE) and inside(P, P_RANGE)):
+            continue
+        n = logu(rnd, *N_RANGE)
+        for gas in (True, False):
+            out.append({'kind': 'vdw', 'src': 'dense', 'a': a, 'b': b, 'T': T, 'P': P, 'n': n, 'gas': gas})
+    return out
+
+
+def gen_forms(rnd, count):
+    """integral-valued state A (so int / numpy.int64 arguments denote the same numbers), free state B"""
+    out = []
+    for i in range(count):
+        A = {'T': float(rnd.randint(50, 3000)), 'P': float(rnd.randint(1, 1000)), 'n': float(rnd.randint(2, 1000))}
+        T, P, n = _state(rnd)
+        B = {'T': T, 'P': P, 'n': n}
+        case = {'kind': 'forms', 'src': 'forms', 'eos': 'vdw', 'A': A, 'B': B}
+        m = i % 4
+        if m == 0:                                # integer a (the upper end of its range), sub-critical A
+            case.update(a=3.0, b=logu(rnd, *B_RANGE))
+        elif m == 1:                              # from_critical with integral Tc, Pc; A below Tc where possible
+            Tc, Pc = float(rnd.randint(5, 1000)), float(rnd.randint(1, 300))
+            case['from_critical'] = [Tc, Pc]
+            if Tc > 80:
+                A['T'] = float(rnd.randint(50, int(Tc) - 1))
+                A['P'] = float(rnd.randint(1, max(1, int(Pc * 0.3))))
+        else:
+            case.update(a=logu(rnd, *A_RANGE), b=logu(rnd, *B_RANGE))
+        out.append(case)
+        if i % 3 == 0:
+            out.append({'kind': 'forms', 'src': 'forms', 'eos': 'ideal', 'A': dict(A), 'B': dict(B)})
     return out
 
 
@@ -488,9 +749,14 @@ def run(ctx):
         tcases, skipped = gen_tlc(rnd, tlc_cases, ctx.pick(2, 20))
         ctx.coverage['tlc_cubics_not_scalable_into_domain'] = skipped
         cases = (tcases
-                 + gen_ideal(rnd, ctx.pick(300, 5000))
-                 + gen_random(rnd, ctx.pick(700, 20000))
-                 + gen_threeroot(rnd, ctx.pick(600, 15000))
+                 + gen_ideal(rnd, ctx.pick(250, 5000))
+                 + gen_corners(rnd, ctx.pick(120, None))
+                 + gen_random(rnd, ctx.pick(550, 20000))
+                 + gen_threeroot(rnd, ctx.pick(500, 15000))
+                 + gen_spinodal(rnd, ctx.pick(60, 2000))
+                 + gen_dilute_subcritical(rnd, ctx.pick(60, 2000))
+                 + gen_dense_supercritical(rnd, ctx.pick(60, 2000))
+                 + gen_forms(rnd, ctx.pick(90, 1500))
                  + gen_nearcrit(rnd, ctx.pick(150, 3000))
                  + gen_fromcrit_states(rnd, ctx.pick(250, 6000))
                  + gen_crit(rnd, ctx.pick(150, 3000))
@@ -498,14 +764,20 @@ def run(ctx):
     results = core.pmap(execute, cases)
     traces = []
     stats = {'vdw_three_roots': 0, 'vdw_one_root': 0, 'vdw_low_density': 0, 'critical_states': 0,
-             'tlc_replayed': 0, 'array_cases': 0, 'array_refused': 0}
+             'tlc_replayed': 0, 'array_cases': 0, 'array_refused': 0,
+             'range_end_states': 0, 'adjacent_to_range_end_states': 0, 'spinodal_states': 0,
+             'dilute_subcritical_liquid_three_roots': 0, 'dense_supercritical_states': 0,
+             'forms_cases_vdw': 0, 'forms_cases_ideal': 0, 'forms_three_root_states': 0,
+             'ideal_range_end_states': 0, 'critical_range_end_objects': 0, 'critical_amount_not_one': 0,
+             'array_liquid_subcritical': 0}
     for tid, (case, (events, detail)) in enumerate(zip(cases, results)):
         ctx.evaluated()
         tags = {'kind': case['kind'], 'src': case.get('src', case['kind']), 'gas': case.get('gas')}
         sig = [case['kind'], case.get('src'), case.get('gas')] + \
               [_sig(x) for k in ('a', 'b', 'T', 'P', 'n') if k in case
                for x in (case[k] if isinstance(case[k], list) else [case[k]])] + \
-              [_sig(x) for x in case.get('from_critical', [])]
+              [_sig(x) for x in case.get('from_critical', [])] + \
+              [_sig(case[k][q]) for k in ('A', 'B') if k in case for q in ('T', 'P', 'n')] + [case.get('eos')]
         if case['kind'] == 'vdw':
             nr = detail.get('nroots', 0)
             if nr == 3:
@@ -516,6 +788,19 @@ def run(ctx):
                 stats['vdw_low_density'] += 1
             if case.get('src') == 'tlc':
                 stats['tlc_replayed'] += 1
+            src = case.get('src')
+            if src == 'corner':
+                stats['range_end_states'] += 1
+            elif src == 'adjacent':
+                stats['adjacent_to_range_end_states'] += 1
+            elif src == 'spinodal':
+                stats['spinodal_states'] += 1
+            elif src == 'dense':
+                stats['dense_supercritical_states'] += 1
+            elif src == 'dilute' and nr == 3 and not case['gas']:
+                stats['dilute_subcritical_liquid_three_roots'] += 1
+            if src in ('corner', 'adjacent', 'spinodal', 'dense', 'dilute'):
+                ctx.nontrivial(sig)
             if nr == 3 or detail.get('lowdens') or case.get('src') == 'tlc':
                 ctx.nontrivial(sig)
             if 'mismatch' in detail:
@@ -524,6 +809,18 @@ def run(ctx):
             ctx.nontrivial(sig)
             if case['kind'] == 'array':
                 stats['array_refused' if 'array_refused' in detail else 'array_cases'] += 1
+                if case.get('sub') and not case.get('gas', True):
+                    stats['array_liquid_subcritical'] += 1
+            if case['kind'] == 'forms':
+                stats['forms_cases_' + case['eos']] += 1
+                if detail.get('nroots') == 3:
+                    stats['forms_three_root_states'] += 1
+            if case.get('src') == 'ideal_corner':
+                stats['ideal_range_end_states'] += 1
+            if case.get('src') == 'crit_corner':
+                stats['critical_range_end_objects'] += 1
+            if case['kind'] == 'crit' and case['n'] != 1.0:
+                stats['critical_amount_not_one'] += 1
             if detail.get('state'):
                 stats['critical_states'] += 1
         traces.append((tid, events))
@@ -533,10 +830,6 @@ def run(ctx):
     ctx.count('traces_validated_against_impl', len(traces))
     ctx.coverage['trace_lines'] = vstats['lines']
     ctx.coverage.update(stats)
-    if ctx.replay_case is None and (stats['vdw_three_roots'] < 100 or stats['vdw_low_density'] < 100
-                                    or stats['tlc_replayed'] < 50 or stats['critical_states'] < 20
-                                    or stats['array_cases'] + stats['array_refused'] < 50):
-        raise core.MachineryError('vacuous run: %r' % (stats,))
     for tid, idx, clause in fails:
         case = cases[tid]
         if clause == 'WITNESS':
@@ -544,6 +837,21 @@ def run(ctx):
                                       % (case, results[tid][1]))
         tags = {'kind': case['kind'], 'src': case.get('src', case['kind']), 'gas': case.get('gas')}
         ctx.violation(clause, case, tags=tags, detail=results[tid][1])
+    # vacuity: every input class must have been exercised (counters that need a successful call are
+    # only meaningful when the library did not fail - then the run already reports violations)
+    if ctx.replay_case is None and not ctx.violations and (stats['vdw_three_roots'] < 100 or stats['vdw_low_density'] < 100
+                                    or stats['tlc_replayed'] < 50 or stats['critical_states'] < 20
+                                    or stats['array_cases'] + stats['array_refused'] < 50
+                                    or stats['range_end_states'] < 64 or stats['adjacent_to_range_end_states'] < 100
+                                    or stats['spinodal_states'] < 40 or stats['dense_supercritical_states'] < 40
+                                    or stats['dilute_subcritical_liquid_three_roots'] < 20
+                                    or stats['forms_cases_vdw'] < 30 or stats['forms_cases_ideal'] < 10
+                                    or stats['forms_three_root_states'] < 5
+                                    or stats['ideal_range_end_states'] < 64
+                                    or stats['critical_range_end_objects'] < 32
+                                    or stats['critical_amount_not_one'] < 20
+                                    or stats['array_liquid_subcritical'] < 5):
+        raise core.MachineryError('vacuous run: %r' % (stats,))
     ctx.assume('R = 8.3144598 J/mol/K and 1 bar = 1e5 Pa are fixed in the specification (documented values)')
     ctx.assume('the real roots used by RootSelected are bracketed by the harness (sign changes of the cubic on a '
                'logarithmic grid plus its two stationary points, bisection) and each is verified by TLC through its '
